@@ -156,6 +156,18 @@ def check_C13(chk, tier, seed):
               ("dwr", raw(280, 0, [sid(4), oh, orr])),
               ("dpr", raw(282, 0, [sid(5), oh, orr, (273, 0x40, gen.be(0, 4))])),
               ("header-only", raw(272, 4, []))]
+    # one TLS server over time: idle for a while (longer than any handshake deadline a server might keep), then peers that fail at
+    # connection setup, then a verifying client with a trusted, matching certificate: served, both before and after
+    hist_cases = ["TLSHIST 0", f"TLSHIST {hx(6500)}"]
+    himpl = core.run_sharded([eng.harness, "codec"], eng.prelude, hist_cases, shards=2, timeout=300, env=NET_ENV)
+    for c, im in zip(hist_cases, himpl):
+        chk.case(c, True)
+        chk.validated += 1
+        chk.count("tls-server-history")
+        f = dict(x.split("=", 1) for x in im.split()[1:] if "=" in x) if im.startswith("TLSHIST") else {}
+        if (f.get("first"), f.get("after_bad_peers")) != ("ok", "ok"):
+            chk.violation("a verifying client with a trusted, matching server was not served by a TLS server that had been idle / had seen other peers fail at "
+                          "connection setup before (what a connection gets must depend on the configuration alone): " + short(im, 200), dict(case=c, impl=short(im)))
     pcases = [f"TLSPLAIN match {xb(f)}" for (_, f) in firsts] + ["TLSROT"]
     pimpl = core.run_sharded([eng.harness, "codec"], eng.prelude, pcases, shards=8, timeout=300, env=NET_ENV)
     for (name, _), c, im in zip(firsts, pcases, pimpl):
@@ -218,7 +230,7 @@ def check_C13(chk, tier, seed):
                        "timeouts: 2.5 s to connect, 2.5 s for the answer, on loopback"]
 
 
-FAULTS = ["announce-leave", "malformed", "oversized", "zero-length", "stall-midframe", "stall-setup", "garbage-setup", "reset", "reset-midframe", "handler-panic", "handler-panic-sync", "handler-panic-fmt", "handler-panic-unwrap", "vanish-before-answer", "deep-nesting"]
+FAULTS = ["announce-leave", "malformed", "oversized", "zero-length", "stall-midframe", "stall-setup", "garbage-setup", "reset", "reset-midframe", "handler-panic", "handler-panic-sync", "handler-panic-fmt", "handler-panic-unwrap", "vanish-before-answer", "deep-nesting", "vendor-zero", "nest-30"]
 
 
 def check_C10(chk, tier, seed):
